@@ -113,6 +113,7 @@ pub struct Ctx {
     paranoid: Option<std::fs::File>,
     pub replay_sig: Option<String>,
     enum_index: u64,
+    compact_at: usize,
 }
 
 pub const SAMPLES_PER_KEY: usize = 3;
@@ -137,6 +138,7 @@ impl Ctx {
             paranoid,
             replay_sig: std::env::var("RVMON_REPLAY_SIG").ok(),
             enum_index: 0,
+            compact_at: 6_000_000,
         }
     }
 
@@ -170,9 +172,11 @@ impl Ctx {
 
     pub fn nontrivial(&mut self, h: u64) {
         self.hashes.push(h);
-        if self.hashes.len() > 6_000_000 {
+        if self.hashes.len() >= self.compact_at {
             self.hashes.sort_unstable();
             self.hashes.dedup();
+            // amortised: next compaction only after the set could have doubled
+            self.compact_at = (self.hashes.len() * 2).max(6_000_000);
         }
     }
 
